@@ -569,7 +569,7 @@ def gen_cases(rng, tier):
     for i in range(n):
         prof = profiles[i % len(profiles)]
         nl = netgen.gen_netlist(rng, prof)
-        cases.append({'netlist': nl['lines'], 'tags': nl['tags'], 's0': '%d/%d' % (rng.randint(1, 9), rng.randint(1, 4)),
+        cases.append({'netlist': nl['lines'], 'tags': nl['tags'], 's0': '%s%d/%d' % ('-' if i % 3 == 2 else '', rng.randint(1, 9), rng.randint(1, 4)),
                       'eps': '1/7', 'convention': 'hybrid' if i % 5 == 4 else ('active' if i % 7 == 3 else 'passive'),
                       'methods': ['DM', 'LU', 'GE', 'ADJ'] if i % 3 == 0 else ['DM', 'LU']})
     return cases
@@ -584,6 +584,8 @@ CORPUS = [
     # coupled inductors with initial currents (mutual initial-condition term, fixed finding of C02)
     {'netlist': ['L1 1 0 2 3', 'R1 1 0 1', 'L2 2 0 2 1', 'R2 2 0 1', 'K1 L1 L2 {1/2}'], 'tags': ['corpus', 'K', 'ic'], 's0': '3/2', 'methods': ['DM', 'LU']},
     {'netlist': ['V1 1 0 step 2', 'R1 1 2 1', 'L1 2 0 8 -1', 'L2 3 0 2', 'R2 3 0 4', 'K1 L2 L1 {3/4}', 'C1 3 0 1 2'], 'tags': ['corpus', 'K', 'ic'], 's0': '2/1', 'methods': ['DM']},
+    # causal circuit with mutual inductance, evaluated at a negative real s (sqrt(s**2) is not s there)
+    {'netlist': ['V1 1 0 step 1', 'R1 1 2 1', 'L1 2 0 1', 'L2 3 0 1', 'K1 L1 L2 {1/2}', 'R2 3 0 1'], 'tags': ['corpus', 'K'], 's0': '-3/2', 'methods': ['DM', 'LU']},
     # phasor (ac) analysis over the Gaussian rationals: sources with quarter-turn phases, two frequencies + dc
     {'netlist': ['I1 1 0 ac 2 {pi/2} 3', 'R1 1 2 2', 'C1 2 0 {1/3}', 'R2 1 0 1'], 'tags': ['corpus', 'ac'], 's0': '2/1', 'methods': ['DM', 'LU'], 'api': False},
     {'netlist': ['V1 1 0 ac 5 {-pi/2} 2', 'R1 1 2 2', 'L1 2 3 2', 'I1 3 0 ac 2 {pi/2} 2', 'R2 3 0 1', 'V2 3 4 dc 2', 'R3 4 0 1',
